@@ -3,6 +3,7 @@ package c01
 import (
 	"bytes"
 	"fmt"
+	"reflect"
 	"testing"
 
 	"pgregory.net/rapid"
@@ -24,6 +25,9 @@ func TestRegress(t *testing.T) { harness.RunRegress(t) }
 type encCase struct {
 	Framing spec.Framing `json:"framing"`
 	Req     spec.Req     `json:"req"`
+	// Proto (TCP only): value written into the request's exported MBAPHeader.ProtocolID field before it is serialised. Whatever a
+	// caller leaves in that field, the frame carries protocol id 0 (the specification's only value).
+	Proto uint16 `json:"proto,omitempty"`
 }
 
 // expected returns the specification-level request the arguments denote.
@@ -74,6 +78,14 @@ func runEnc(c encCase) harness.Result {
 	}
 	labels = append(labels, "accepted")
 	e := expected(r)
+	if c.Proto != 0 && c.Framing == spec.TCP {
+		if f := reflect.ValueOf(q).Elem().FieldByName("MBAPHeader"); f.IsValid() {
+			if pf := f.FieldByName("ProtocolID"); pf.IsValid() && pf.CanSet() {
+				pf.SetUint(uint64(c.Proto))
+				labels = append(labels, "protocol-id-field-set")
+			}
+		}
+	}
 	got := q.Bytes()
 	if q.FunctionCode() != r.FC {
 		return harness.Fail("FunctionCode()=%d for fc %d", q.FunctionCode(), r.FC)
@@ -209,7 +221,11 @@ func genEnc(t *rapid.T) encCase {
 		}
 		r.Payload = gen.Payload(t, "regs", n)
 	}
-	return encCase{Framing: gen.Framing(t), Req: r}
+	c := encCase{Framing: gen.Framing(t), Req: r}
+	if c.Framing == spec.TCP && rapid.IntRange(0, 3).Draw(t, "proto_field") == 0 {
+		c.Proto = uint16(rapid.SampledFrom([]int{1, 0x0100, 0x1234, 0xFFFF}).Draw(t, "proto"))
+	}
+	return c
 }
 
 var chkEnc = harness.Define("encode-vs-spec", genEnc, runEnc)
